@@ -1281,6 +1281,11 @@ func c06GenRecord(rnd *Rand, hd []c06Ref, weird bool) c06Rec {
 		n = 1
 	case 2:
 		n = rnd.rng(100, 600)
+	case 3:
+		if rnd.coin(1, 3) {
+			// a long read: its SAM line does not fit a 4096-byte line buffer
+			n = rnd.pick([]int{2040, 2047, 2048, 2100, 4095, 4096, 4097, 5000, 9000})
+		}
 	}
 	if n > 0 {
 		s := make([]byte, n)
